@@ -230,6 +230,8 @@ def process_template(path, crate, repo, gen=None, depth=0):
                 gen.rule_counts[k] = gen.rule_counts.get(k, 0) + v
             sha = hashlib.sha256(X.join(fn['sig'] + fn['body']).encode()).hexdigest()
             out_name = sc.opts.get('as', sc.name)
+            if out_name in gen.functions:
+                out_name = f"{sc.name}@{sc.module.split('::')[-1]}" + (f"#{len(gen.functions)}" if f"{sc.name}@{sc.module.split('::')[-1]}" in gen.functions else '')
             gen.functions[out_name] = {'kind': 'extracted', 'module': sc.module, 'repo_name': sc.name, 'sha256': sha[:16],
                                        'rules': dict(log.counts), 'src': find_src_line(repo, sc.module, sc.name),
                                        'props': sc.opts.get('props', '').split(',') if sc.opts.get('props') else [],
